@@ -47,6 +47,10 @@ function removeRewrittenSourceMap (filename) {
 function getFilePathFromName (filename) {
   const filenameParts = filename.split(path.sep)
   filenameParts.pop()
+  // a file directly under the root folder: its folder is the root, not the (relative) empty path
+  if (filenameParts.length === 1 && filenameParts[0] === '' && filename.startsWith(path.sep)) {
+    return path.sep
+  }
   return filenameParts.join(path.sep)
 }
 
